@@ -360,7 +360,8 @@ func TestC11(t *testing.T) {
 				fault = rapid.IntRange(0, len(c11Faults)-1).Draw(rt, "fault")
 			}
 			src := g.program(rapid.IntRange(3, 40).Draw(rt, "actions"), fault)
-			c.c11Program(s, "rand-histories", src, g.nt)
+			pl := drawPlacement(rt)
+			c.c11Program(s, "rand-histories", place(src, pl), g.nt, "placed-"+placementNames[pl])
 		})
 	})
 }
